@@ -79,6 +79,35 @@ def run(chk):
             else:
                 servers.append(sim.Server([w], end='idle'))
         servers.append(sim.Server([], end='idle'))
+        # ... and afterwards the same Connection object holds the whole conversation again with a healthy server
+        again_at = len(servers)
+        # (reactive servers: a status handshake is answered with the status conversation, a login handshake with the login one -
+        #  whether the client queries the status again depends on what it negotiated the first time)
+        status_i = 0 if (sc['kind'] == 'status' or name.startswith('status+login')) else None
+        login_i = None if sc['kind'] == 'status' else len(wires) - 1
+        kinds = {}
+        for j in range(3):
+            srv = sim.Server([], end='idle')
+
+            def first(data, srv=srv, j=j):
+                try:
+                    ns = proto.parse_frames(data)[0][1][-1]
+                except Exception:
+                    return
+                kinds[again_at + j] = ns
+                idx = status_i if ns == 1 else login_i
+                if idx is not None:
+                    w = wires[idx]
+                    if ns == 2 and name.startswith('status+login'):
+                        # after the documented fallback the client is pinned to its default version: the healthy server speaks
+                        # the protocol named in the handshake
+                        import c09
+                        hp = c09.parse_conn(None, data)[0]
+                        i2 = proto.Ids(hp)
+                        w = proto.frame(i2.login_success, i2.b_login_success()) + proto.frame(i2.keep_alive, i2.b_keep_alive(77))
+                    srv.chunks.append(w)
+            srv.on_first_frame = first
+            servers.append(srv)
         net = sim.Net(servers, urandom=sc.get('secret')).install()
         delivered, excs = [], []
         try:
@@ -93,7 +122,25 @@ def run(chk):
                     conn.status(handle_ping=None)
                 else:
                     conn.connect()
-                res = net.run_threads(conn)
+                res = list(net.run_threads(conn))
+                # second conversation on the same object (after a disconnect() when the first one is still formally active)
+                n_exc, again = len(excs), {'error': None}
+                used = net.nconn
+                try:
+                    if any(r[1] == 'end-of-script' for r in res):
+                        conn.disconnect(immediate=True)
+                    # unused servers of the first conversation are skipped: the second conversation starts at [again_at]
+                    while net.nconn < again_at:
+                        net.nconn += 1
+                    if sc['kind'] == 'status':
+                        conn.status(handle_ping=None)
+                    else:
+                        conn.connect()
+                    net.run_threads(conn)
+                except Exception as e:
+                    again['error'] = exn_name(e)
+                again['new_exceptions'] = [exn_name(e) for e in excs[n_exc:]]
+                again['delivered'] = {c2: [pid for c, pid in delivered if c == c2] for c2 in kinds}
             finally:
                 builtins.print = rp
         finally:
@@ -134,6 +181,16 @@ def run(chk):
                         what = 'an error (%s) was reported although the conversation had ended' % exn_name(excs[0])
                 elif not excs or not isinstance(excs[-1], EOFError):
                     what = 'the stream ended %s but %s was reported' % ('inside a frame' if inside else 'between frames', exn_name(excs[-1]) if excs else 'nothing')
+        if not what:
+            exp_again = {c2: len(sc['conns'][status_i if ns == 1 else login_i][0]) for c2, ns in kinds.items() if (status_i if ns == 1 else login_i) is not None}
+            got_again = {c2: len(again['delivered'].get(c2, [])) for c2 in exp_again}
+            final = 1 if sc['kind'] == 'status' else 2
+            if not any(ns == final for ns in kinds.values()):
+                exp_again = 'a %s connection' % ('status' if final == 1 else 'login')
+            if again['error'] or again['new_exceptions']:
+                what = 'a second conversation on the same Connection object with a healthy server failed: %s %s' % (again['error'] or '', again['new_exceptions'])
+            elif got_again != exp_again:
+                what = 'a second conversation on the same Connection object delivered %s packets per connection; the healthy server sent %s' % (got_again, exp_again)
         if what:
             chk.violation('prefix', 'prefix:%s:%d:%d' % (name, ci, k), {'case': case, 'observed': what, 'thread_outcomes': [str(o)[:60] for o in outs]},
                           '%s, connection %d cut after %d of %d bytes: %s' % (name, ci, k, len(wires[ci]), what))
